@@ -256,10 +256,20 @@ BATTERY = [
 ]
 
 
+def canon_repr(v):
+    """repr with dict items sorted: the repr of a call step lists keyword arguments in sorted order, so a mapping built
+    from them may come back with its (equal) items in another order"""
+    if type(v) is dict:
+        return '{' + ', '.join(sorted('%s: %s' % (canon_repr(k), canon_repr(x)) for k, x in v.items())) + '}'
+    if type(v) in (list, tuple):
+        return type(v).__name__ + '(' + ', '.join(canon_repr(x) for x in v) + ')'
+    return repr(v)
+
+
 def outcome(target, spec, scope):
     try:
         v = glom.glom(target, spec, scope=dict(scope))
-        return ('ok', ADDR.sub('', repr(v)))
+        return ('ok', ADDR.sub('', canon_repr(v)))
     except PathAccessError as e:
         return ('pae', e.part_idx, type(e.exc).__name__)
     except Exception as e:
@@ -396,7 +406,9 @@ def check_seq(recipe, ctx):
         raise Mismatch('mutated', '%r changed by sequence operations' % (p,))
     # composition (wildcard-free, T-rooted)
     flat = repr(recipe)
-    if root == 'T' and "'x'" not in flat and "'X'" not in flat:
+    # (a nested T / Spec argument inside q denotes the target of the CALL - t on the left, glom(t, p) on the right -
+    # so the law cannot hold for it by design; such q are left out)
+    if root == 'T' and "'x'" not in flat and "'X'" not in flat and not tx.has_nested(recipe['q']):
         for tr in BATTERY[:3]:
             t = tg.build(tr).obj
             try:
